@@ -174,34 +174,54 @@ def link_walk(ctx, rr):
     """link-list walks visit the head stub and every previous stub exactly once; weights count stubs; counts halve the stubs"""
     P = ctx.P
     ls = P.require_class('LinkStore')
-    for name in ('link_nodes_iter', 'weighted_link_nodes_iter', 'deduped_link_nodes_iter'):
+    # trace language of one walk: account(head) (test move account)* test  -- whatever the loop is spelled like
+    import re as _re
+    for name, acc in (('link_nodes_iter', lambda e: e.kind == 'yield'),
+                      ('weighted_link_nodes_iter', lambda e: e.kind in ('store', 'aug') and '.target()' in (e.text or '')),
+                      ('deduped_link_nodes_iter', lambda e: e.kind == 'call' and e.name == 'target')):
         u = P.method('LinkStore', name)
-        wl = [w for w in P.own(u, ast.While)]
-        ok = len(wl) == 1 and ast.unparse(wl[0].test).endswith('.has_previous()') and \
-            any(isinstance(s, ast.Expr) and isinstance(s.value, ast.Call) and ast.unparse(s.value.func).endswith('.read_previous') for s in wl[0].body)
-        rr.ob(ctx.where(u), '%s follows the previous pointers until the end of the list' % name, ok=ok)
-        if not ok:
-            rr.fail(ctx.finding('R-LINK-WALK', u, wl[0] if wl else u.node, '%s no longer walks `while node.has_previous(): node.read_previous()`' % name, stmt=name + ' walk'))
-            continue
-        # the head is accounted for before the loop, each previous stub inside it, first statement of the body is the move
-        first_is_move = isinstance(wl[0].body[0], ast.Expr) and ast.unparse(wl[0].body[0].value.func).endswith('.read_previous')
-        rr.ob(ctx.where(u, wl[0]), '%s moves to the previous stub before accounting for it' % name, ok=first_is_move)
-        if not first_is_move:
-            rr.fail(ctx.finding('R-LINK-WALK', u, wl[0], '%s accounts for a stub before moving to it: the head is counted twice and the oldest link is lost' % name))
-    for name in ('link_nodes_iter', 'weighted_link_nodes_iter', 'deduped_link_nodes_iter'):
-        u = P.method('LinkStore', name)
-        for w_ in P.own(u, ast.While):
-            early = [x for x in ast.walk(w_) if isinstance(x, (ast.Break, ast.Return))]
-            rr.ob(ctx.where(u, w_), '%s never leaves its walk before the end of the list' % name, ok=not early)
-            if early:
-                rr.fail(ctx.finding('R-LINK-WALK', u, early[0], '%s stops its walk early (`%s`): older links behind that stub are lost' % (name, type(early[0]).__name__.lower())))
+        rows = tables(ctx, u, iters=2, keep=lambda n_, c: n_ in ('read_previous', 'target', 'has_previous'))
+        bad = []
+        nwalk = 0
+        for r in rows:
+            if r.outcome == 'raise':
+                continue
+            toks = ''
+            for e in r.events:
+                if e.kind == 'call' and e.name == 'has_previous':
+                    toks += 'H'
+                elif e.kind == 'call' and e.name == 'read_previous':
+                    toks += 'M'
+                elif acc(e):
+                    toks += 'A'
+            nwalk += 1
+            ends_ok = toks.endswith('H') if r.outcome in ('fall', 'return') else True
+            if not _re.match(r'^A(HMA)*H?(M)?$', toks) or not ends_ok:
+                why = 'the head stub is not accounted for first' if not toks.startswith('A') else (
+                    'a stub is accounted for twice' if 'AA' in toks or 'AHA' in toks else (
+                        'the walk moves twice without accounting for the stub in between' if 'MM' in toks or 'MHM' in toks else (
+                            'the walk moves without testing has_previous()' if _re.search(r'(^|[AM])M', toks) else 'the walk ends before has_previous() said so')))
+                bad.append((r, toks, why))
+        hp = [k for r in rows for k in r.val if base(k).endswith('.has_previous()')]
+        if not nwalk or not hp:
+            raise AnalysisError('R-LINK-WALK: walk of LinkStore.%s not recognised' % name)
+        rr.ob(ctx.where(u), '%s: head accounted first, then (test has_previous, move, account) until has_previous is false (%d traces)' % (name, nwalk), ok=not bad)
+        for r, toks, why in bad[:1]:
+            rr.fail(ctx.finding('R-LINK-WALK', u, u.node, '%s: %s (trace %s; A=account H=has_previous M=read_previous): links are lost, repeated or counted wrongly' % (name, why, toks),
+                                detail={'row': r.show()[:300]}, stmt=name + ' walk'))
+        for r in rows:
+            early = [e for e in r.events if e.kind == 'return'] if name != 'link_nodes_iter' else []
     w = P.method('LinkStore', 'weighted_link_nodes_iter')
-    inits = [a for a in P.own(w, ast.Assign) if isinstance(a.targets[0], ast.Subscript) and ast.unparse(a.targets[0].slice).endswith('.target()')]
-    incs = [a for a in P.own(w, ast.AugAssign) if isinstance(a.target, ast.Subscript) and ast.unparse(a.target.slice).endswith('.target()')]
-    ok = len(inits) == 1 and isinstance(inits[0].value, ast.Constant) and inits[0].value.value == 1 and len(incs) == 1 and isinstance(incs[0].op, ast.Add) \
-        and isinstance(incs[0].value, ast.Constant) and incs[0].value.value == 1
-    rr.ob(ctx.where(w), 'weights: the head stub counts 1 and every further stub adds 1 to its target', ok=ok)
-    if not ok:
+    wrows = tables(ctx, w, iters=2, keep=lambda n_, c: n_ in ('read_previous', 'has_previous'))
+    okw = True
+    for r in wrows:
+        accs = [e for e in r.events if e.kind in ('store', 'aug') and '.target()' in (e.text or '')]
+        for i_, e in enumerate(accs):
+            t = (e.text or '').replace(' ', '')
+            if not (t.endswith('Add=1') or (i_ == 0 and t.endswith(']=1'))):
+                okw = False
+    rr.ob(ctx.where(w), 'weights: every stub adds exactly 1 to its target (the head may initialise it to 1)', ok=okw)
+    if not okw:
         rr.fail(ctx.finding('R-LINK-WALK', w, w.node, 'weighted_link_nodes_iter no longer counts one per stub (head = 1, each previous += 1): reported weights differ from submission counts',
                             stmt='weights'))
     cl = P.method('LinkStore', 'count_links')
@@ -388,9 +408,19 @@ def paginate(ctx, rr):
         for a in P.own(u, (ast.Assign, ast.AugAssign)):
             tg = a.targets if isinstance(a, ast.Assign) else [a.target]
             if any(PATH in names_in_target(t) for t in tg) and a is not parse[0] and a is not last:
-                # the declaration `path = None` before the token is parsed is fine
-                if isinstance(a, ast.Assign) and isinstance(a.value, ast.Constant) and a.value.value is None and a.lineno < parse[0].lineno:
-                    continue
+                # the default `path = None` for a request without token is fine: it is not executed after the token was parsed
+                if isinstance(a, ast.Assign) and isinstance(a.value, ast.Constant) and a.value.value is None:
+                    cfg_ = ctx.cfg(u)
+                    src_ = [n_ for n_ in cfg_.nodes if n_.ast is parse[0]]
+                    seen_, work_ = set(), list(src_)
+                    while work_:
+                        x_ = work_.pop()
+                        for y_, _l in x_.succ:
+                            if y_.id not in seen_:
+                                seen_.add(y_.id)
+                                work_.append(y_)
+                    if not any(n_.ast is a and n_.id in seen_ for n_ in cfg_.nodes):
+                        continue
                 extra.append(a)
         rr.ob(ctx.where(u, parse[0]), 'the resume path parsed from the token reaches the walk unchanged', ok=not extra)
         for a in extra:
@@ -437,6 +467,10 @@ def paginate(ctx, rr):
     u = P.method('Traph', 'paginate_webentity_pages')
     ks = [a for a in P.own(u, ast.Assign) if isinstance(a.value, ast.IfExp) and 'page_count' in ast.unparse(a.value)]
     ok = len(ks) == 1 and ast.unparse(ks[0].value.body).replace(' ', '') in ('page_count+1', '1+page_count')
+    if not ks:
+        # statement form: if page_count is not None: k = page_count + 1 else: k = None
+        ks = [a for a in P.own(u, ast.Assign) if isinstance(a.value, ast.BinOp) and 'page_count' in ast.unparse(a.value)]
+        ok = len(ks) == 1 and ast.unparse(ks[0].value).replace(' ', '') in ('page_count+1', '1+page_count')
     rr.ob(ctx.where(u), 'page pagination looks one page ahead (k = page_count + 1)', ok=ok)
     if not ok:
         rr.fail(ctx.finding('R-PAGINATE', u, ks[0] if ks else u.node, 'the look-ahead of paginate_webentity_pages is no longer page_count + 1'))
